@@ -158,7 +158,7 @@ def run(tier: str) -> int:
                 stats["cmp:" + " ".join(out.split(" ")[:2]) if head in ("agree", "skip") else "cmp:" + head] += 1
                 if head in ("differ", "stackdiffer", "perr"):
                     key = None
-                    if stacks == "1" and has_dead_store_pattern(p) and dead_store_deleted(ref.teal, c.teal):
+                    if stacks == "1" and dead_store_deleted(ref.teal, c.teal):
                         key = "C03-dead-store-optimised"
                     elif prog_control_in_operand(p):
                         key = "C03-control-in-operand"
